@@ -308,7 +308,12 @@ pub fn malformed_case(rng: &mut Rng, which: Option<Malform>) -> (Vec<u8>, String
 
 /// `wide_side`: 32-bit stereo with a decorrelated (33-bit) side channel in every frame
 pub fn malformed_case_in(rng: &mut Rng, which: Option<Malform>, wide_side: bool) -> (Vec<u8>, String) {
-    let mut c = c03::random_case(rng, false);
+    let c = c03::random_case(rng, false);
+    malformed_from(rng, c, which, wide_side)
+}
+
+/// malforms one frame of the given valid case
+pub fn malformed_from(rng: &mut Rng, mut c: c03::GenCase, which: Option<Malform>, wide_side: bool) -> (Vec<u8>, String) {
     if wide_side {
         c.params.bps = 32;
         if c.params.channels != 2 {
@@ -465,13 +470,23 @@ pub fn run(ctx: &Ctx, rep: &mut Report) {
     if ctx.extra.iter().any(|a| a == "--tiny") {
         // Miri tier: a few small CRC-valid malformed files per process through every entry point
         let mut rng = ctx.rng(0x7104);
-        let mut done = 0;
+        // (16..24-sample blocks: the interpreter's cost is dominated by the samples decoded, and the
+        // generator itself runs inside it too)
+        let mut done = 0u64;
         let mut tries = 0;
-        while done < 1 && tries < 400 {
+        while done < 4 && tries < 40 {
             tries += 1;
-            let (b, what) = malformed_case_in(&mut rng, None, tries % 5 == 0);
-            if b.len() <= 200 {
+            let c = c03::tiny_case(&mut rng);
+            // knobs that inflate the file (huge unary runs, reserved coding methods) are left to the
+            // native tiers: building them inside the interpreter alone takes minutes
+            let knobs: Vec<Malform> = all_malforms(&mut rng, c.params.channels).into_iter().filter(|m| !matches!(m, Malform::HugeUnary(..) | Malform::Method(..))).collect();
+            let m = *rng.pick(&knobs);
+            let (b, what) = malformed_from(&mut rng, c, Some(m), (ctx.shard + done) % 4 == 3);
+            // a few knobs (huge unary runs, method switches) inflate the file: too slow to interpret
+            if b.len() <= 400 {
+                let t = std::time::Instant::now();
                 run_one(rep, &b, &what, "malform-knob");
+                eprintln!("tiny case {what} ({} bytes): {:.1}s", b.len(), t.elapsed().as_secs_f64());
                 done += 1;
             }
         }
